@@ -998,6 +998,7 @@ func (t *Tree) Compile(file string, args []string, out io.Writer) (err error) {
 			t.warn(fmt.Errorf("internal error #1 (%v)", n))
 		case TypeDot:
 			if n.ParentDetect() {
+				_print("\nposition++")
 				break
 			}
 			_print("\n   if !matchDot() {")
@@ -1024,7 +1025,7 @@ func (t *Tree) Compile(file string, args []string, out io.Writer) (err error) {
 				_print("}")
 			}
 		case TypeRange:
-			if n.ParentDetect() {
+			if n.ParentDetect() && !n.ParentMultipleKey() {
 				_print("\nposition++")
 				break
 			}
@@ -1156,10 +1157,7 @@ func (t *Tree) Compile(file string, args []string, out io.Writer) (err error) {
 			label++
 			printBegin()
 			printSave(ok)
-			element := n.Front()
-			element.SetParentDetect(n.ParentDetect())
-			element.SetParentMultipleKey(n.ParentMultipleKey())
-			compile(element, ko)
+			compile(n.Front(), ko)
 			printRestore(ok)
 			printEnd()
 		case TypePeekNot:
@@ -1167,10 +1165,7 @@ func (t *Tree) Compile(file string, args []string, out io.Writer) (err error) {
 			label++
 			printBegin()
 			printSave(ok)
-			element := n.Front()
-			element.SetParentDetect(n.ParentDetect())
-			element.SetParentMultipleKey(n.ParentMultipleKey())
-			compile(element, ok)
+			compile(n.Front(), ok)
 			printJump(ko)
 			printLabel(ok)
 			printRestore(ok)
@@ -1199,10 +1194,7 @@ func (t *Tree) Compile(file string, args []string, out io.Writer) (err error) {
 			printLabel(again)
 			printBegin()
 			printSave(out)
-			element := n.Front()
-			element.SetParentDetect(n.ParentDetect())
-			element.SetParentMultipleKey(n.ParentMultipleKey())
-			compile(element, out)
+			compile(n.Front(), out)
 			printJump(again)
 			printLabel(out)
 			printRestore(out)
